@@ -1031,8 +1031,18 @@ Section WS.
     | OEdit h p a => let '(w1, r) := edit w h p a in (w1, q, out_unit r)
     | OAssign h sp => let '(w1, r) := assign w h sp in (w1, q, out_unit r)
     | OUpdateSp h u ov => let '(w1, r) := update_statepoint w h u ov in (w1, q, out_unit r)
-    | OMove h s => let '(w1, r) := move w h s in (w1, q, out_unit r)
-    | OClone s h => let '(w1, r) := clone w s h in (w1, q, out_handle w1 r)
+    (* move / clone call project.open_job(statepoint) on the destination project: its persistent cache is read
+       (once) at that moment, after job.statepoint() was evaluated *)
+    | OMove h s =>
+        let '(w1, r) := match sp_access w h with
+                        | (w0, inr e) => (w0, inr e)
+                        | _ => move (ensure_read w s) h s
+                        end in (w1, q, out_unit r)
+    | OClone s h =>
+        let '(w1, r) := match sp_access w h with
+                        | (w0, inr e) => (w0, inr e)
+                        | _ => clone (ensure_read w s) s h
+                        end in (w1, q, out_handle w1 r)
     | OTree => (w, q, VTree (w_fs w))
     | OQuiet => (w, length (w_tr w), VBool (Nat.eqb (length (w_tr w)) q))
     | ORemove h => let '(w1, r) := remove_job w h in (w1, q, out_unit r)
